@@ -635,7 +635,10 @@ class PathMatches(Matcher):
         pattern = self.regex.pattern
         if pattern.startswith("^"):
             pattern = pattern[1:]
-        if pattern.endswith("$"):
+        if pattern.endswith("$") and (
+            (len(pattern) - 1 - len(pattern[:-1].rstrip("\\"))) % 2 == 0
+        ):
+            # Only an unescaped trailing "$" is an anchor.
             pattern = pattern[:-1]
 
         if self.regex.groups != pattern.count("("):
